@@ -23,7 +23,11 @@ def sh(cmd, **kw):
 
 def failures(wt):
     p = sh("cd %s && PYTHONPATH=%s/src /venv/bin/python -m pytest -q -p no:cacheprovider -rf 2>&1" % (wt, wt), timeout=900)
-    return sorted(l.split(" ")[1] for l in p.stdout.splitlines() if l.startswith("FAILED"))
+    # two tests of the pinned suite depend on the wall clock (one fails 23:00-24:00 UTC, one in the last half second
+    # of a minute); they are unrelated to any change under test
+    flaky = ("test_pretty_next_run_with_todays_day_should_return_due_today",
+             "test_hexadecimale_timestamp_to_localtime_with_the_current_timestamp_should_return_a_time_string")
+    return sorted(l.split(" ")[1] for l in p.stdout.splitlines() if l.startswith("FAILED") and not any(f in l for f in flaky))
 
 
 os.makedirs("/tmp/vs", exist_ok=True)
